@@ -124,6 +124,32 @@ type c18Scenario struct {
 	// use the package-level wrapper (req.Get, req.MustPost, …: the default client) when the scenario
 	// configures nothing at request level
 	pkg bool
+	// hooks that MUTATE the response they are handed: the OnError hook ("n" leaves resp.Err, "s<i>"
+	// replaces it by sentinel i, "c" clears it) and, per attempt, the retry hook run before the wait
+	hookAct    string
+	retryHooks []string
+}
+
+func (sc *c18Scenario) hookEnc() string {
+	enc := func(a string) string {
+		if a == "" || a == "n" {
+			return "n"
+		}
+		if a == "c" {
+			return "c"
+		}
+		i, _ := strconv.Atoi(a[1:])
+		return "s" + c18ErrArg(i)
+	}
+	rh := "-"
+	if len(sc.retryHooks) > 0 {
+		p := make([]string, len(sc.retryHooks))
+		for i, a := range sc.retryHooks {
+			p[i] = enc(a)
+		}
+		rh = strings.Join(p, ",")
+	}
+	return enc(sc.hookAct) + ":" + rh
 }
 
 var c18ErrGetBody = errors.New("c18 GetBody failure")
@@ -318,8 +344,8 @@ func (sc *c18Scenario) line(fixes string) string {
 	if sc.unbounded {
 		n = "u" + strconv.Itoa(sc.natt()+2) // fuel: the attempts the script describes, and a margin
 	}
-	return fmt.Sprintf("c18pipe %s %c %s %s %s %s %s %s %s %s %s:%s:%s %s", fixes, sc.entry, flags, c18EncStages(sc.udReq), bi,
-		c18EncStages(sc.wrappers), gb, tr, c18EncStages(sc.clientResp), c18EncStages(sc.reqResp), n, conds, bits(sc.ctxDone), bits(sc.outFails))
+	return fmt.Sprintf("c18pipe %s %c %s %s %s %s %s %s %s %s %s:%s:%s %s %s", fixes, sc.entry, flags, c18EncStages(sc.udReq), bi,
+		c18EncStages(sc.wrappers), gb, tr, c18EncStages(sc.clientResp), c18EncStages(sc.reqResp), n, conds, bits(sc.ctxDone), bits(sc.outFails), sc.hookEnc())
 }
 
 // natt: how many attempts the script describes
@@ -360,6 +386,7 @@ type c18Obs struct {
 	foreign      []string      // stages / settings of ANOTHER client (parent or copy) that took part in the call
 	outW         *c18OutWriter // SetOutput variant: what was written
 	outFile      string        // SetOutputFile variant: the path of the last attempt
+	hookBad      string        // the OnError hook was handed an error that is not resp.Err at that moment, or a nil one
 	runaway      bool          // an unbounded retry went on beyond the attempts the script describes
 	fileFail     bool          // SetOutputFile variant: some attempt was given a path that cannot be created
 }
@@ -499,7 +526,27 @@ func c18Run(sc *c18Scenario) *c18Obs {
 		add(func(c *Client) { c.DisableAutoReadResponse() })
 	}
 	if sc.hook {
-		add(func(c *Client) { c.OnError(func(*Client, *Request, *Response, error) { o.hooks++ }) })
+		add(func(c *Client) {
+			c.OnError(func(_ *Client, _ *Request, resp *Response, err error) {
+				o.hooks++
+				if err == nil || resp == nil || resp.Err != err {
+					o.hookBad = "the error hook was handed " + c18PipeErrName(err) + " while resp.Err was not that error"
+				}
+				// the hook is handed the response and may rewrite the recorded error (translate / recover)
+				switch {
+				case sc.hookAct == "c":
+					resp.Err = nil
+				case len(sc.hookAct) > 1:
+					i, _ := strconv.Atoi(sc.hookAct[1:])
+					// (booked with the last attempt that took place: RetryAttempt may already be one ahead
+					// when the wait before a retry ended the call)
+					if n := len(o.raised); n > 0 {
+						o.raised[n-1] = append(o.raised[n-1], c18ErrArg(i))
+					}
+					resp.Err = c18Sentinels[i]
+				}
+			})
+		})
 	}
 	if sc.xform {
 		// the response-body transformer: its outcome is scripted per exchange (looked up by the
@@ -878,6 +925,21 @@ func c18Run(sc *c18Scenario) *c18Obs {
 	} else if sc.save {
 		req.SetOutputFile("c18-placeholder.out") // replaced per attempt by the hidden request middleware
 	}
+	if len(sc.retryHooks) > 0 {
+		// a retry hook that rewrites the error of the response it is handed (it runs after the
+		// retry decision, RetryAttempt already incremented, before the wait)
+		req.AddRetryHook(func(resp *Response, _ error) {
+			a := c18At(sc.retryHooks, att()-1, "n")
+			switch {
+			case resp == nil:
+			case a == "c":
+				resp.Err = nil
+			case len(a) > 1:
+				i, _ := strconv.Atoi(a[1:])
+				resp.Err = c18Sentinels[i]
+			}
+		})
+	}
 	if len(sc.ctxDone) > 0 {
 		ctx, cancel := context.WithCancel(context.Background())
 		defer cancel()
@@ -885,7 +947,7 @@ func c18Run(sc *c18Scenario) *c18Obs {
 		// the retry hook runs after the retry decision and before the wait: cancelling there makes
 		// the context done exactly when the wait begins (the interval is long so that only the
 		// context can end that wait)
-		req.SetRetryHook(func(*Response, error) {
+		req.AddRetryHook(func(*Response, error) {
 			if c18At(sc.ctxDone, att()-1, false) {
 				cancel()
 			}
@@ -958,7 +1020,7 @@ func c18Run(sc *c18Scenario) *c18Obs {
 	// package-level helpers (req.Get, req.MustPost, …) delegate to the default client; usable
 	// when the scenario configures nothing at request level
 	usePkg := (sc.entry == 'v' || sc.entry == 'm') && !sc.sT && !sc.eT && len(sc.reqResp) == 0 && sc.maxRetries == 0 &&
-		!sc.save && !sc.unbounded && len(sc.ctxDone) == 0 &&
+		!sc.save && !sc.unbounded && len(sc.ctxDone) == 0 && len(sc.retryHooks) == 0 &&
 		sc.conds == nil && !needBody && !sc.unreplayable && !sc.builderErr && !reqLevelNoAutoRead && sc.pkg
 	if usePkg {
 		req = nil
@@ -1112,7 +1174,17 @@ func (o *c18Obs) answer(sc *c18Scenario) string {
 		" status=" + st + " state=" + state + " cached=" + cached + " res=" + c18b(r.SuccessResult() != nil) + " eslot=" + es + " log=" + log
 }
 
+func c18Atoi(s string) int { n, _ := strconv.Atoi(s); return n }
+
 func c18Suppressing(sc *c18Scenario) bool {
+	if sc.hookAct == "c" {
+		return true
+	}
+	for _, a := range sc.retryHooks {
+		if a != "" && a != "n" {
+			return true // a retry hook rewriting resp.Err: the stale-response paths then carry that error
+		}
+	}
 	for _, l := range [][][]c18Act{sc.wrappers, sc.clientResp, sc.reqResp} {
 		for _, st := range l {
 			for _, a := range st {
@@ -1145,6 +1217,15 @@ func (o *c18Obs) oracle(sc *c18Scenario) string {
 		if strings.HasPrefix(c18PipeErrName(o.mustErr), "other(") {
 			return "Must* panicked with " + c18PipeErrName(o.mustErr) + ", not with the error the non-Must form returns"
 		}
+		if o.hookBad != "" {
+			return o.hookBad
+		}
+		if len(sc.hookAct) > 1 && c18PipeErrName(o.mustErr) != c18ErrArg(c18Atoi(sc.hookAct[1:])) && o.hooks == 1 {
+			return "Must* panicked with " + c18PipeErrName(o.mustErr) + " although the hook recorded another error"
+		}
+		if sc.hookAct == "c" && o.hooks == 1 {
+			return "Must* panicked although the hook cleared the error"
+		}
 		if want := map[bool]int{true: 1, false: 0}[sc.hook]; o.hooks != want {
 			return fmt.Sprintf("error hook ran %d times for a failing Must* call, want %d", o.hooks, want)
 		}
@@ -1160,17 +1241,28 @@ func (o *c18Obs) oracle(sc *c18Scenario) string {
 	if sc.entry == 'm' && o.err != nil {
 		return "Must* returned although the call ended in error"
 	}
-	wantHooks := 0
-	if verbStyle && sc.hook && r.Err != nil {
-		wantHooks = 1
+	if o.hookBad != "" {
+		return o.hookBad
 	}
-	if o.hooks != wantHooks {
-		return fmt.Sprintf("error hook ran %d times, want %d", o.hooks, wantHooks)
+	mutatingHook := sc.hookAct != "" && sc.hookAct != "n"
+	switch {
+	case o.hooks > 1:
+		return fmt.Sprintf("error hook ran %d times", o.hooks)
+	case o.hooks == 1 && (!verbStyle || !sc.hook):
+		return "error hook ran for a Do-style call / without being installed"
+	case o.hooks == 1 && !mutatingHook && r.Err == nil:
+		return "error hook ran although the call reports no error"
+	case o.hooks == 1 && sc.hookAct == "c" && r.Err != nil, o.hooks == 1 && len(sc.hookAct) > 1 && c18PipeErrName(r.Err) != c18ErrArg(c18Atoi(sc.hookAct[1:])):
+		return "the error the hook left in resp.Err is not the one recorded at return"
+	case o.hooks == 0 && verbStyle && sc.hook && r.Err != nil:
+		return "error hook ran 0 times, want 1"
 	}
-	if sc.builderErr && r.Err == nil {
+	// "the call reports no error" for the clauses below: not merely because the hook cleared one
+	noErr := r.Err == nil && !(sc.hookAct == "c" && o.hooks == 1)
+	if sc.builderErr && noErr {
 		return "a request setter recorded an error but the call reports none"
 	}
-	if sc.unreplayable && (sc.maxRetries != 0 || sc.unbounded) && r.Err == nil {
+	if sc.unreplayable && (sc.maxRetries != 0 || sc.unbounded) && noErr {
 		return "retry with an unreplayable body was accepted"
 	}
 	if b := r.Bytes(); b != nil && r.Response != nil {
@@ -1179,7 +1271,7 @@ func (o *c18Obs) oracle(sc *c18Scenario) string {
 		}
 	}
 	// SetOutput / SetOutputFile: what was saved last is the body of the final exchange
-	if sc.save && r.Err == nil && r.Response != nil && !c18Suppressing(sc) {
+	if sc.save && noErr && r.Response != nil && !c18Suppressing(sc) {
 		if f := o.facts[r.Header.Get("X-Tag")]; f != nil && f.body != "" && r.Request != nil && r.Request.Method != "HEAD" &&
 			f.status != 204 && f.status != 304 {
 			var saved []byte
@@ -1243,7 +1335,7 @@ func (o *c18Obs) oracle(sc *c18Scenario) string {
 		if r.SuccessResult() != interface{}(&o.okT) || !final || !reflect.DeepEqual(want, &o.okT) {
 			return "success target does not hold the decoded body of the final response"
 		}
-	} else if _, ok := decodes(&c18T{}); r.Err == nil && sc.sT && content && r.IsSuccessState() && ok {
+	} else if _, ok := decodes(&c18T{}); noErr && sc.sT && content && r.IsSuccessState() && ok {
 		return "success result NOT populated although target, success state, content and unmarshals"
 	}
 	if es {
@@ -1267,7 +1359,7 @@ func (o *c18Obs) oracle(sc *c18Scenario) string {
 		default:
 			return "error result of a foreign type"
 		}
-	} else if _, ok := decodes(&c18E{}); r.Err == nil && (sc.eT || sc.cE) && content && r.IsErrorState() && ok {
+	} else if _, ok := decodes(&c18E{}); noErr && (sc.eT || sc.cE) && content && r.IsErrorState() && ok {
 		return "error result NOT populated although target/type, error state, content and unmarshals"
 	}
 	// an error raised by a stage is seen
@@ -1292,6 +1384,35 @@ func (o *c18Obs) oracle(sc *c18Scenario) string {
 				if n := c18PipeErrName(r.Err); n != e && n != "digest" && !(n == "ctxdone" && len(sc.ctxDone) > 0) && !(n == "output" && o.fileFail) {
 					return "the only error raised is " + e + " but the call reports " + c18PipeErrName(r.Err)
 				}
+			}
+		}
+	}
+	// precedence inside Client.roundTrip, read off the script: after an exchange EVERY client-level
+	// response middleware runs and the last one that returns an error / assigns resp.Err / clears it
+	// decides what the round trip reports — also over a transport error (no wrappers, request-level
+	// stages, retry / error hooks in the way)
+	if len(sc.wrappers) == 0 && len(sc.reqResp) == 0 && len(sc.ctxDone) == 0 && len(sc.retryHooks) == 0 && !mutatingHook && len(o.logs) > 0 {
+		a := len(o.logs) - 1
+		sent := false
+		for _, e := range o.logs[a] {
+			if e == "t" {
+				sent = true
+			}
+		}
+		if sent {
+			for i := len(sc.clientResp) - 1; i >= 0; i-- {
+				act := c18At(sc.clientResp[i], a, c18Act{kind: "n"})
+				if act.kind == "n" {
+					continue
+				}
+				want := "-"
+				if act.kind != "c" {
+					want = c18ErrArg(act.e)
+				}
+				if got := c18PipeErrName(r.Err); got != want {
+					return "the last client-level response middleware left " + want + " in resp.Err but the call reports " + got
+				}
+				break
 			}
 		}
 	}
@@ -1646,6 +1767,16 @@ func c18Finish(r *rand.Rand, sc *c18Scenario, pXform, pClone int) *c18Scenario {
 		sc.path, sc.split = 1+r.Intn(3), r.Intn(1<<20)
 	}
 	sc.pkg = r.Intn(3) == 0
+	// hooks that rewrite the error of the response they are handed
+	if sc.hook && r.Intn(3) == 0 {
+		sc.hookAct = verifh.Pick(r, []string{"c", "s" + strconv.Itoa(20+r.Intn(5)), "s" + strconv.Itoa(20+r.Intn(5))})
+	}
+	if natt > 1 && r.Intn(5) == 0 {
+		sc.retryHooks = make([]string, natt)
+		for i := range sc.retryHooks {
+			sc.retryHooks[i] = verifh.Pick(r, []string{"n", "n", "c", "s" + strconv.Itoa(25+r.Intn(5))})
+		}
+	}
 	return sc
 }
 
@@ -1826,6 +1957,12 @@ func c18ModelBuckets(hist *c18Hist, sc *c18Scenario, ans string) {
 	}
 	if sc.save {
 		hist.Count("save")
+	}
+	if sc.hookAct != "" && sc.hookAct != "n" && f["hooks"] == "1" {
+		hist.Count("hook-rewrites:" + sc.hookAct[:1])
+	}
+	if len(sc.retryHooks) > 0 && strings.Count(f["log"], "|") > 0 {
+		hist.Count("retry-hook-rewrites")
 	}
 	if sc.unbounded {
 		hist.Count("unbounded")
@@ -2029,7 +2166,8 @@ func TestVerif_C18_call(t *testing.T) {
 		"final=S", "final=E", "final=U", "final=204", "ct=json", "ct=xml", "ct=other", "ct=none", "entry=d", "entry=s", "entry=v", "entry=m", "hook=1",
 		"pkg-level:Get", "pkg-level:Post", "pkg-level:Put", "pkg-level:Patch", "pkg-level:Delete", "pkg-level:Options", "pkg-level:Head",
 		"pkg-level:MustGet", "pkg-level:MustPost", "pkg-level:MustPut", "pkg-level:MustPatch", "pkg-level:MustDelete", "pkg-level:MustOptions",
-		"pkg-level:MustHead", "save", "out=err:output", "xform-fails+err", "clonepath=1", "clonepath=2", "clonepath=3")
+		"pkg-level:MustHead", "save", "out=err:output", "xform-fails+err", "clonepath=1", "clonepath=2", "clonepath=3",
+		"hook-rewrites:c", "hook-rewrites:s")
 }
 
 // TestVerif_C18_pipe: generated middleware stacks.
@@ -2056,7 +2194,7 @@ func TestVerif_C18_pipe(t *testing.T) {
 		"out=err:unreplay", "out=err:digest", "out=mustpanic", "out=ok", "attempts=1", "attempts=2", "attempts=3", "attempts=4", "final=nohttp",
 		"digest-resent", "hook=1", "entry=d", "entry=s", "entry=v", "entry=m",
 		"save", "out=err:output", "unbounded-retried", "out=err:ctxdone", "out=err:ctxcanceled", "xform-fails+err",
-		"clonepath=1", "clonepath=2", "clonepath=3")
+		"clonepath=1", "clonepath=2", "clonepath=3", "hook-rewrites:c", "hook-rewrites:s", "retry-hook-rewrites")
 }
 
 // TestVerif_C18_e2e: the same contract over a real connection: req's own Transport against an
